@@ -51,6 +51,10 @@ StepPruned ==
                  ELSE LET e == Entries[k]
                       IN  (IF e.key = S.names[pos] THEN {} ELSE {KTag \o "C12.KeyOrder" \o At})
                           \cup (IF e.key = S.names[pos] THEN CountClauses(e) ELSE {})
+                          \* every field of the entry (of a failing game too) is what the runner gives
+                          \* for a file that holds this game only
+                          \cup (IF S.solos[pos].alone.ok /\ e.fields # S.solos[pos].alone.pr
+                                THEN {KTag \o "C12.EntryEqualsAlone pruned" \o At} ELSE {})
                           \cup (IF sp.ok
                                 THEN (IF e.msg = "Game solved" /\ e.fields = sp.fields /\ ~e.none THEN {}
                                       ELSE {KTag \o "C12.EntryEqualsSolo pruned" \o At})
@@ -68,6 +72,8 @@ StepUnpruned ==
                  ELSE LET e == Entries[k]
                       IN  (IF e.key = S.names[pos] \o "_no_prune" THEN {} ELSE {KTag \o "C12.KeyOrder" \o At})
                           \cup (IF e.key = S.names[pos] \o "_no_prune" THEN CountClauses(e) ELSE {})
+                          \cup (IF S.solos[pos].alone.ok /\ e.fields # S.solos[pos].alone.un
+                                THEN {KTag \o "C12.EntryEqualsAlone unpruned" \o At} ELSE {})
                           \cup (IF hadSolution
                                 THEN (IF su.ok
                                       THEN (IF e.msg = "Game solved" /\ e.fields = su.fields /\ ~e.none THEN {}
